@@ -39,3 +39,19 @@ mut2("c04-compression-key-lowercase", "C04", [
 mut("c04-offset-limit-le", "C04", "msg.go", "				} else if off < maxCompressionOffset {", "				} else if off <= maxCompressionOffset {", "a name starting exactly at offset 16384 becomes a pointer target")
 mut("c04-srv-target-compressed", "C04", "zmsg.go", "	off, err = packUint16(rr.Port, msg, off)\n	if err != nil {\n		return off, err\n	}\n	off, err = packDomainName(rr.Target, msg, off, compression, false)", "	off, err = packUint16(rr.Port, msg, off)\n	if err != nil {\n		return off, err\n	}\n	off, err = packDomainName(rr.Target, msg, off, compression, compress)", "SRV target compressed on output (RFC 3597 forbids)")
 mut("c04-compbegin-ignores-escapes", "C04", "msg.go", "			compBegin = begin + compOff", "			compBegin = begin", "compression key offset ignores escape lengths")
+
+# ---- C08
+mut("c08-srv-len-forgets-port", "C08", "ztypes.go", "	l += 2 // Weight\n	l += 2 // Port\n	l += domainNameLen(rr.Target", "	l += 2 // Weight\n	l += domainNameLen(rr.Target", "SRV.len forgets the port")
+mut("c08-escaped-name-len", "C08", "msg.go", "	if escaped {\n		return escapedNameLen(s) + 1\n	}", "	if escaped {\n		return escapedNameLen(s)\n	}", "escaped name length one short")
+mut("c08-packlen-no-plus-one", "C08", "msg.go", "	if packLen := uncompressedLen + 1; len(msg) < packLen {", "	if packLen := uncompressedLen; len(msg) < packLen {", "pack buffer sized without the spare octet")
+mut("c08-bitmap-last-window", "C08", "msg_helpers.go", "		lastwindow, lastlength = window, length\n	}\n	l += int(lastlength) + 2\n	return l", "		lastwindow, lastlength = window, length\n	}\n	l += int(lastlength) + 1\n	return l", "typeBitMapLen forgets one header octet of the last window")
+mut("c08-len-search-limit", "C08", "msg.go", "		if msgOff+off < maxCompressionOffset {", "		if msgOff+off <= maxCompressionOffset {", "length search inserts a name at offset 16384 that the packer does not")
+mut("c08-mx-len-compress", "C08", "ztypes.go", "	l += domainNameLen(rr.Mx, off+l, compression, true)", "	l += domainNameLen(rr.Mx, off+l, compression, false)", "MX length computed as if the exchange were never compressed (over-estimate: exactness clause)")
+
+# ---- C09
+mut("c09-loop-ge", "C09", "msg_truncate.go", "		if l > size {\n			// Return size", "		if l >= size {\n			// Return size", "record that fits exactly is dropped (maximality)")
+mut("c09-opt-not-subtracted", "C09", "msg_truncate.go", "		size -= Len(edns0)", "		size -= 0", "OPT length not subtracted from the budget")
+mut("c09-tc-ignores-extra", "C09", "msg_truncate.go", "	dns.Truncated = dns.Truncated || len(dns.Answer) > numAnswer ||\n		len(dns.Ns) > numNS || len(dns.Extra) > numExtra", "	dns.Truncated = dns.Truncated || len(dns.Answer) > numAnswer ||\n		len(dns.Ns) > numNS", "TC ignores records dropped from the additional section")
+mut("c09-return-l-on-overflow", "C09", "msg_truncate.go", "			return size, i\n", "			return l - r.len(l, nil), i\n", "after a cut later sections may still receive records")
+mut("c09-floor-511", "C09", "msg_truncate.go", "	if size < MinMsgSize {\n		size = MinMsgSize\n	}", "	if size < MinMsgSize {\n		size = MinMsgSize - 1\n	}", "size floor is 511")
+mut("c09-tc-always-on-compress", "C09", "msg_truncate.go", "	dns.Compress = true\n\n	edns0 := dns.popEdns0()", "	dns.Compress = true\n	dns.Truncated = true\n\n	edns0 := dns.popEdns0()", "TC set whenever compression is needed even if nothing is dropped")
